@@ -187,8 +187,11 @@ class GraphGen:
             r = self.rng
             name = r.choice(["rec.wav", "with space.wav", "ünï_音.flac", "a.b.c.wav", "REC_001.WAV", "trailing space.wav ", "\u3000wide.wav",
                              # characters that mean something to other systems but are plain file-name characters here
-                             "take\\1.wav", "a:b.wav", "100%.wav", "#1 ?.wav", "C:\\rec.wav"])
-            sub = subdir if subdir is not None else r.choice(["", "site1", "site 2/night", "a/b/c/d", "ünï", " leading space dir", "\u3000ideographic", "dir /x",
+                             "take\\1.wav", "a:b.wav", "100%.wav", "#1 ?.wav", "C:\\rec.wav",
+                             # names that are not in Unicode NFC: decomposed accents (as macOS hands them out), a singleton
+                             # (ANGSTROM SIGN), a compatibility ideograph -- a different spelling is a different file
+                             "re\u0301c 01.wav", "\u212b.wav", "\uf900.flac"])
+            sub = subdir if subdir is not None else r.choice(["", "site1", "site 2/night", "a/b/c/d", "ünï", " leading space dir", "\u3000ideographic", "dir /x", "Cafe\u0301",
                                                              # spellings a user-typed or joined path can have: a '..' hop between two
                                                              # sub-directories and a sub-directory that is a symbolic link (LINK_DIR ->
                                                              # LINK_TARGET, created by the workload when the audio root is a real directory)
@@ -241,7 +244,11 @@ class GraphGen:
         if self.opt(0.12):
             return None
         spec = geoms.random_geom(self.rng, self.rng.choice(self.geom_types), self.rng.choice(["realistic", "dyadic", "edge"]))
-        return geoms.build(spec)
+        g = geoms.build(spec)
+        if type(g).__name__.startswith("Labelled"):
+            # an application subclass cannot survive a document that stores the library's type tag: not part of C01
+            g = geoms.build(spec, how="dict")
+        return g
 
     def sound_event(self, clip=None):
         def make():
